@@ -37,7 +37,7 @@ PROP = dict(
          "true at its k-th poll and stays true; a first run counts the polls N, then EVERY k in 0..N is run (an even sample incl. 0,1,2,3,N-1,N "
          "when N exceeds the tier's limit) inside a fresh thread + single-thread pool with the repeatable random; every run must return Ok "
          "with a solution passing the Lean feasibility, partition and replay specifications and report generations <= max. Non-trivial: "
-         ">= 20 interruption points. Distinct = SHA-256 of the canonical case input",
+         ">= 20 interruption points. Distinct = SHA-256 of the canonical case input Three problems in ten are searched by one operator only (infeasible search over the default ruin-and-recreate operator, or redistribute; public constructors with the default parameters, 12 generations, denser poll sample).",
     modelled="control skeleton: InsertionHeuristic::process (prepare; loop while required and no quota; finalize + remove_empty_routes on every "
              "exit), Iterative::run loop guard with MaxGeneration",
     traced="the real solver at every poll index (construction, every search operator, decomposition, swap-star all poll the same quota)",
